@@ -26,6 +26,11 @@ structure MethodInfo where
   name : String
   nparams : Nat
   results : List TyId
+  /-- the method is declared with a pointer receiver (entries of `methodsOf`) -/
+  ptrRecv : Bool := false
+  /-- `LookupFieldOrMethod(typ, false, …)` does not find it while `(typ, true, …)` does: the operand
+  must be addressable (entries of the `lookup` oracle) -/
+  needsAddr : Bool := false
   deriving Repr, DecidableEq, Inhabited
 
 /-- result of `types.LookupFieldOrMethod` -/
@@ -128,6 +133,7 @@ def compliesGetter (m : MethodInfo) : Bool :=
 
 /-- `util.ParseGetterReturnTypes`: `(ret, retError)` or failure -/
 def parseGetterReturnTypes (m : MethodInfo) : Option (TyId × Bool) :=
+  if m.nparams != 0 then none else   -- a getter is called without arguments
   match m.results with
   | [r] => some (r, false)
   | [r, e] => if env.isErrorType e then some (r, true) else none
